@@ -423,7 +423,8 @@ def typed_schedule(plain, rng, np=None):
 # ---------------------------------------------------------------- scenarios
 def scenario(rng, sched="scripted", nmax=6, sess_max=7, horizon=25, kinds=("EVSE", "DB", "FR"),
              bkinds=("ideal", "l2c", "l2s"), noise_p=0.0, constraint_free_p=0.2, big=False,
-             sid_style="x", recompute_p=0.4, bind=None, period=None, inf_evse_p=0.06, deep=None, **skw):
+             sid_style="x", recompute_p=0.4, bind=None, period=None, inf_evse_p=0.06, deep=None, odd_ids_p=0.07, int_type_p=0.1,
+             **skw):
     if deep is None:
         deep = TIER == "thorough" and rng.random() < 0.15
     if deep:
@@ -461,10 +462,50 @@ def scenario(rng, sched="scripted", nmax=6, sess_max=7, horizon=25, kinds=("EVSE
     if rng.random() < 0.15:
         # a start off the minute grid (datetime.now(), a measured connection time): seconds and microseconds
         start += [rng.choice([0, 29, 59]), rng.choice([0, 1, 250000, 750000, 999999])]
-    return {
+    d = {
         "period": period if period is not None else rng.choice(PERIODS),
         "start": start,
         "network": net, "sessions": sessions, "recompute": rec, "scheduler": sd,
         "np_seed": rng.randrange(1 << 30),
         "verbose": rng.random() < 0.15,
     }
+    rng2 = random.Random(rng.randrange(1 << 40))  # (a second stream: the options below must not shift the scenarios drawn above)
+    if rng2.random() < odd_ids_p:
+        odd_ids(rng2, d)
+    if rng2.random() < int_type_p:
+        # period indices as they come out of a numpy table / a pandas column: numpy integer scalars, unsigned ones included
+        d["int_type"] = rng2.choice(["uint16", "uint8" if last < 200 else "uint32", "uint32", "uint64", "int16", "int32", "int64"])
+    return d
+
+
+ODD_STATION_IDS = ["", " ", "0", "10", "2", "02", "st", "ST", "st ", " st", "\u00e9v-1", "\u96fb-2", "a/b", "a.b", "x" * 300, "None", "nan", "-1", "1e3",
+                   "{0}", "%s", "PS-001\n", "\t"]
+
+
+def odd_ids(rng, d):
+    """Rename stations, sessions and constraints of a descriptor with identifiers that are legal strings but unusual: empty,
+    blank, numeric-looking ("10" sorts before "2"), differing only by case or surrounding white space, non-ASCII, very long,
+    spelled like None / nan / a format template.  Consistent renaming: the scenario is otherwise the same."""
+    st_ids = [s["id"] for s in d["network"]["stations"]]
+    pool = list(ODD_STATION_IDS)
+    rng.shuffle(pool)
+    stmap = {old: pool[i] if i < len(pool) else old for i, old in enumerate(st_ids)}
+    spool = ["", "0", "7", "12", "007", " ", "s", "S", "s ", "\u00fc", "None", "y" * 300, "{0}", "%d"]
+    rng.shuffle(spool)
+    smap = {s["id"]: (spool[i] if i < len(spool) else s["id"]) for i, s in enumerate(d["sessions"])}
+    # a session id may equal a station id (the two name spaces are independent), but keep each space duplicate-free
+    for s in d["network"]["stations"]:
+        s["id"] = stmap[s["id"]]
+    cpool = ["", " ", "0", "c", "C", "_const_0", "_const_1", "x_v2", "\u00e7", "None"]
+    rng.shuffle(cpool)
+    for i, c in enumerate(d["network"]["constraints"]):
+        c["coeffs"] = {stmap[k]: v for k, v in c["coeffs"].items()}
+        if i < len(cpool):
+            c["name"] = cpool[i]
+    for s in d["sessions"]:
+        s["station"] = stmap[s["station"]]
+        s["id"] = smap[s["id"]]
+    if "hold_back" in d:
+        d["hold_back"] = [smap[x] for x in d["hold_back"]]
+    d["odd_ids"] = True
+    return d
